@@ -33,7 +33,7 @@ let () = Reg.register "c20.build" (fun inp out ->
     (L (Stdlib.List.map put_bnode model), verdict)
   | _ -> failwith "c20.build")
 
-let () = Reg.register "c20.events" (fun inp out ->
+let events_oracle name = Reg.register name (fun inp out ->
   match lst inp, lst out with
   | [_; len; _], [st; evs] ->
     let evs = get_list get_ev evs in
@@ -43,4 +43,11 @@ let () = Reg.register "c20.events" (fun inp out ->
       else if not (TreeBuilder.ok_events evs) then "bad:reported-nodes-are-not-well-nested-with-containers-last"
       else "ok" in
     (out, verdict)
-  | _ -> failwith "c20.events")
+  | _ -> failwith name)
+
+(* c20.events: the shipped parsers; c20.genev: generated parsers (input = grammar text, length, text) *)
+let () = events_oracle "c20.events"
+let () = events_oracle "c20.genev"
+
+(* a generated grammar that textmapper accepted must build *)
+let () = Reg.register "c20.gennobuild" (fun _ _ -> (A "builds", "bad:generated-parser-does-not-build"))
